@@ -273,3 +273,42 @@ func vxNoTempLeftC() bool {
 	}
 	return true
 }
+
+// VxH16glob: the dependency in-port of a dependent file globber counts like every other
+// in-port: left unconnected the workflow is refused before anything runs; connected, a
+// RunTo past the globber includes the process that feeds it.
+func VxH16glob() {
+	mode := vxChoice("mode", 2)
+	vxCmdFree(false, false)
+	vxSetEnv("SCIPIPE_BUFSIZE", "1")
+	wf := scipipe.NewWorkflowCustomLogFile("w", 4, "log/w.log")
+	u := wf.NewProc("u", "vcmd w:{o:out} n:{p:x}")
+	u.SetOut("out", "data/{p:x}.up.txt")
+	u.InParam("x").FromStr("a", "b")
+	gl := NewFileGlobberDependent(wf, "glob", "data/*.up.txt")
+	d := wf.NewProc("d", "vcmd r:{i:in} w:{o:out}")
+	d.SetOut("out", "{i:in}.d.txt")
+	d.In("in").From(gl.Out())
+	tl := wf.NewProc("tail", "vcmd r:{i:in} w:{o:out}")
+	tl.SetOut("out", "{i:in}.t.txt")
+	tl.In("in").From(d.Out("out"))
+	if mode == 0 {
+		gl.InDependency().From(u.Out("out"))
+		kind := vxRun(func() { wf.RunTo("d") })
+		vxReach("ran")
+		vxAssert(kind == "returned", "C16.glob.runto-completes")
+		for _, x := range []string{"a", "b"} {
+			vxAssert(vxFSKind("data/"+x+".up.txt.d.txt") == vxFile, "C16.glob.upstream-of-dependency-port-included")
+			vxAssert(vxFSKind("data/"+x+".up.txt.d.txt.t.txt") == vxAbsent, "C16.glob.downstream-of-target-not-run")
+		}
+		return
+	}
+	// in_dep left unconnected (u feeds another consumer instead)
+	e := wf.NewProc("e", "vcmd r:{i:in} w:{o:out}")
+	e.SetOut("out", "{i:in}.e.txt")
+	e.In("in").From(u.Out("out"))
+	kind := vxRun(func() { wf.Run() })
+	vxReach("ran")
+	vxAssert(kind == "exit" && vxRunCode() != 0, "C16.unconnected-port-refused")
+	vxAssert(vxInvCount() == 0, "C16.unconnected-port-no-command-ran")
+}
